@@ -64,7 +64,7 @@ theorem dict_appendH {p : String} {idx vals idx' vals' : B} {index : List String
 
 theorem DictVals.of_wfh {p : String} {idx vals : B} {index : List String} (h : WFH (.dictionary p idx vals index)) :
     DictVals vals index := by
-  simp only [WFH] at h; exact h.2.2.2.2.2
+  simp only [WFH] at h; exact h.2.2.2.2.2.1
 
 /-! ### struct -/
 
